@@ -228,7 +228,7 @@ def run(tier, seed, replay=None):
     outs = C.run_model(lines)
     evals = 0
     nontriv = set()
-    corr_bad = None
+    corr_bad = C.Corr()
     samples = []
     for st, ent in zip(steps, idx):
         evals += 1
@@ -240,15 +240,15 @@ def run(tier, seed, replay=None):
         else:
             mp = ('Err', (tk.word(), tk.word())[1]) if tk.peek() == 'Err' else ('Ok', (tk.word(), O.read_obj(tk))[1])
         if mp[0] == 'Err':
-            if st['err'] != mp[1] and corr_bad is None:
-                corr_bad = dict(case, what='L1: model raises %s, implementation %s' % (mp[1], st['err'] or 'succeeds'))
+            if st['err'] != mp[1] and corr_bad.open():
+                corr_bad += dict(case, what='L1: model raises %s, implementation %s' % (mp[1], st['err'] or 'succeeds'))
         elif st['err'] is not None:
-            if corr_bad is None:
-                corr_bad = dict(case, what='L1: implementation raises %s, model succeeds' % st['err'])
+            if corr_bad.open():
+                corr_bad += dict(case, what='L1: implementation raises %s, model succeeds' % st['err'])
         else:
             dfr = O.snaps_differ(post, mp[1])
-            if dfr and corr_bad is None:
-                corr_bad = dict(case, what='L1: post-state differs from model: ' + dfr)
+            if dfr and corr_bad.open():
+                corr_bad += dict(case, what='L1: post-state differs from model: ' + dfr)
         # ---- L2
         dim = pre['dim']
         if st['err'] is not None:
@@ -295,7 +295,7 @@ def run(tier, seed, replay=None):
             V.failure(dict(case, what='L2: force_rational left the object non-rational'))
         if len(samples) < 3 and op == 'rotate' and pre['rational']:
             samples.append(case)
-    rc = V.finish(l0, corr_bad if not V.fail else None)
+    rc = V.finish(l0, corr_bad)
     C.write_evidence(PID, tier, seed, l0, {
         'evaluations': evals, 'distinct_nontrivial': len(nontriv),
         'rule': 'random objects (dim 1-3, rational 40%%, pardim 1-3); histories of %d operations: translate (shorter/equal/longer vectors), '
